@@ -169,6 +169,19 @@ func findOne(run *ev.Run, a *agg, S []ksEntry, keyID, alg string, caseID int64) 
 		}
 		return
 	}
+	// the deprecated wrapper oidc.FindKey must say the same: (the key FindMatchingKey selects, whether it selected one)
+	var got2 jose.JSONWebKey
+	var ok2 bool
+	if pi2 := mon.Catch(func() { got2, ok2 = oidc.FindKey(keyID, oidc.KeyUseSignature, alg, jwks...) }); pi2 != nil && !pi2.Harness {
+		run.Violation("C02:FindKey:panic:"+pi2.Site(), caseID, "FindKey panicked: "+pi2.Value, wit())
+		return
+	}
+	if ok2 != (err == nil) || (ok2 && (got2.KeyID != got.KeyID || !samePub(got2.Key, got.Key))) {
+		w := wit()
+		w["FindKey_returned"] = fmt.Sprintf("ok=%v {%s kid=%q}", ok2, pubFamily(got2.Key), got2.KeyID)
+		run.Violation("C02:FindKey:differs-from-FindMatchingKey", caseID, "oidc.FindKey does not report what oidc.FindMatchingKey selects for the same arguments", w)
+		return
+	}
 	c1, g1 := judgeFind(S, keyID, alg, got, err, false)
 	c2, g2 := judgeFind(S, keyID, alg, got, err, true)
 	sel := selectRef(S, keyID, alg, false)
